@@ -156,7 +156,8 @@ def run_tlc(
         text += "\nCONSTANTS\n" + "\n".join(f"  {k} = {v}" for k, v in defines.items()) + "\n"
         cfgpath = meta / f"{cfgname}.cfg"
         cfgpath.write_text(text)
-    cmd = ["java", "-XX:+UseParallelGC", f"-Xmx{heap}", "-Xss256m"]   # deep RECURSIVE operators on larger cases
+    cmd = ["java", "-XX:+UseParallelGC", f"-Xmx{heap}", "-Xss256m",   # deep RECURSIVE operators on larger cases
+           f"-Djava.io.tmpdir={meta}"]                                 # TLC's own tlc-*/SANY* temp dirs go away with the scratch dir
     if dfs:
         cmd.append("-Dtlc2.tool.queue.IStateQueue=StateDeque")
     cmd += ["-cp", TLA_CP, "tlc2.TLC", "-workers", str(workers), "-metadir", str(meta / "md"),
